@@ -213,6 +213,7 @@ def xss_inputs(tier, salt):
     items += list(vgen.prefixes(base, 200))
     items += list(vgen.mutations(base, vgen.SIGMA_HTML, r, per_input=60 if big else 8))
     items += list(vgen.walks(vgen.HTML_FRAGMENTS, r, 60000 if big else 4000, 1, 9))
+    items += list(vgen.inflate(vgen.INFLATE_HTML_SEEDS))             # depth: every chunk of the seeds repeated 17 / 33 / 65 / 130 times
     for opener, alpha in vgen.html_constructs():
         for body in vgen.all_strings(alpha, 6 if big else 4):
             items.append(vgen.b(opener) + body)
@@ -611,6 +612,9 @@ def c15(tier, sc):
     frags = [f for f in frags if f]
     walks = list(vgen.walks(frags, r, 200000 if big else 20000, 1, 12))
     inputs += walks
+    # depth: every chunk of '<'/'='-free seeds repeated 17 / 33 / 65 / 130 times (many words, many quotes, long runs)
+    inputs += list(vgen.inflate(["a `", "a b `c", "x' a `b", "a xml b", "onclick a", "x\" a b", "a / b onclick", "x` a b` c", "a\x00 b onclick 'c'",
+                                 "x' a 'b' onclick", "a > b onclick", "import a b", "a b entity `", "x' -- a `b", "a ?xml b"]))
     # prose laden with every listed name: tags, on<event>, attributes, schemes
     tables = json.load(open(gen_tables(sc, vh)[1]))
     names = [t for t in tables["tags"]] + [vgen.b("on") + e["name"] for e in tables["events"]] + [a["name"] for a in tables["attrs"]]
@@ -663,6 +667,10 @@ def c17(tier, sc):
     cases = []
     for name, alpha, maxlen, prefixes in c17_families(big):
         cases += xss_props(sc, d, rep, "c17" + name, "c17", alpha, maxlen, prefixes=prefixes)
+    # long bodies: every chunk of a construct (near-terminators, the terminator's bytes, filler) repeated 17 / 33 / 65 / 130 times
+    longc = list(vgen.inflate(["<!---!>x<b>", "<!-- - --><b>", "<!--a-\x00->b<c>", "<!---\x00!>b", "<![CDATA[a]]]>b<c>", "<![CDATA[]a]>]]>b", "<%a%%>b<c>", "<% %`>b", "<?a?>b<c>", "<!a>b<c>",
+                               "<!DOCTYPE a>b<c>", "<a b='c' d>", "<a b=\"c'\" d>", "<a b=`c` d>"]))
+    cases += xss_props(sc, d, rep, "c17long", "c17", [97], 0, templates=longc)
     items = []
     for c in cases:
         items.append({"in": c["in"], "ctx": 0})
@@ -1195,6 +1203,7 @@ def sqli_inputs(tier, salt, fp_frac=None):
     items += list(vgen.literal_bodies(6 if big else 4))
     items += keyword_frames(big)
     items += list(vgen.window_frames())
+    items += list(vgen.inflate(vgen.INFLATE_SQL_SEEDS))              # depth: every chunk of the seeds repeated 17 / 33 / 65 / 130 times
     keyword_frames(big)                       # (fills _KW_CACHE)
     items += list(vgen.fingerprint_inputs(_KW_CACHE["fp"], r, fp_frac if fp_frac is not None else (1.0 if big else 0.2)))
     items += vgen.long_sql_inputs(big)
@@ -1488,10 +1497,31 @@ def c12(tier, sc):
         rep.violation("cascade of IsSQLi(%r) breaks the clause %r: %s" % (show(rj["in"]), rj["reject"], json.dumps(rj["impl"])[:400]),
                       {"kind": "sqli.c12", "in": rj["in"], "clause": rj["reject"], "impl": rj["impl"]})
     firing = {}
+    sample = []
+    wf = set(bytes(x) for x in vgen.window_frames()) | set(bytes(x) for x in vgen.inflate(vgen.INFLATE_SQL_SEEDS))
+    rs = vgen.rng("c12spec")
     for l in open(rec):
         e = json.loads(l)
         if e["sqli"]:
             firing[len(e["passes"])] = firing.get(len(e["passes"]), 0) + 1
+        if not e.get("panic") and len(e["in"]) <= 160 and (bytes(e["in"]) in wf or rs.random() < (0.05 if big else 0.02)):
+            sample.append(e)
+    # the gates read counters that the lexer keeps (-- and # seen): the fresh readings above come from the same lexer, so the
+    # readings the specification's cascade executes are compared as well (fold-window frames and inflated seeds, and a sample)
+    import vsqli
+    out_s, res_s = vsqli.eval_spec(sc, d, [{"in": e["in"], "what": "check", "flags": 0} for e in sample], "c12spec", timeout=3000)
+    rep.add_tlc("EvalSqli/cascade", res_s)
+    nb = 0
+    for e, o in zip(sample, out_s):
+        got = [p["flags"] for p in e["passes"]]
+        if got != o["passes"] or e["sqli"] != o["sqli"]:
+            nb += 1
+            if nb <= 20:
+                rep.violation("cascade of IsSQLi(%r): readings executed %s, verdict %s; the specification's cascade executes %s, verdict %s" % (
+                    show(e["in"]), got, e["sqli"], o["passes"], o["sqli"]),
+                    {"kind": "sqli.c12", "in": e["in"], "clause": "readings executed = the specification's cascade", "impl": {"passes": got, "sqli": e["sqli"]},
+                     "spec": {"passes": o["passes"], "sqli": o["sqli"]}})
+    rep.part("spec.cascade", records_compared=len(sample), disagree=nb)
     rep.part("real.cascade", inputs=len(inputs), first_firing_pass_histogram=firing)
     # quote-prefix relation, real vs real on fresh state
     q = sqli_props(sc, d, rep, "quote", "quote", byte_units("1a'\" -#/*=(\\"), 4 if big else 3,
@@ -1710,11 +1740,17 @@ def c14(tier, sc):
         j = k.replace(" ", "_")
         for w in (j if " " in k else None, j + "_", "_" + j, j + "1", "x" + j, j + "x", j + "_" + j, j.upper() if " " in k else None,
                   j.replace("_", "__") if "_" in j else None):
-            if w and _re.fullmatch(r"[A-Za-z_][A-Za-z0-9_]*", w) and len(w) <= 31 and w.upper() not in comp:
+            if w and _re.fullmatch(r"[A-Za-z_][A-Za-z0-9_]*", w) and len(w) <= 31 and w.upper() not in comp:    # (longer ones follow)
                 near.add(w)
+    # long words whose tail or head spells a keyword, at every length around the token buffer and the block sizes of a scanner
+    for kw in ("having", "limit", "union", "select", "or", "and", "like", "in", "is", "by", "from", "into"):
+        for n in range(20, 76):
+            for w in ("a" * n + kw, kw + "a" * n, "a" * n + "_" + kw):
+                if w.upper() not in comp:
+                    near.add(w)
     near = sorted(near)
     if not big:
-        near = [w for w in near if "_" in w.strip("_") or r.random() < 0.25]
+        near = [w for w in near if "_" in w.strip("_") or len(w) > 31 or r.random() < 0.25]
     filler = [w for w in ("hello", "x9", "Bob_1") if w.upper() not in comp]
     if len(filler) >= 2:
         a, b2 = filler[0], filler[1]
